@@ -1716,3 +1716,131 @@ def replay_c06_sign(args):
     finally:
         sp.deterministic_generate_k = real_k
     return (len(bad) > 0), "c06_sign: %d failures %s" % (len(bad), str(bad[:3])[:250])
+
+
+# ---------------------------------------------------------------------------
+# C07
+
+_REF_MODS = {"bn128": "py_ecc.bn128", "bls12_381": "py_ecc.bls12_381"}
+
+
+def replay_c07_ref(args):
+    m = importlib.import_module(_REF_MODS[args["curve"]])
+    FQ = m.FQ
+    p = m.field_modulus
+    rng = random.Random(77)
+    bad = []
+    pt = args.get("point") or {}
+
+    def mk(P):
+        return None if P is None else (FQ(P[0]), FQ(P[1]))
+
+    def un(P):
+        return None if P is None else (int(P[0]), int(P[1]))
+    cases = []
+    if pt:
+        g = lambda n: int(pt.get(n, rng.randrange(1, p))) % p
+        a, b = (g("x1"), g("y1")), (g("x2"), g("y2"))
+        cases += [(a, b), (a, a), (a, (a[0], -a[1] % p))]
+    for _ in range(6):
+        a = (rng.randrange(1, p), rng.randrange(1, p))
+        b = (rng.randrange(1, p), rng.randrange(1, p))
+        cases += [(a, b), (a, a), (a, (a[0], -a[1] % p)), (None, b), (a, None), (None, None)]
+    for a, b in cases:
+        try:
+            got = un(m.add(mk(a), mk(b)))
+            exp = aff_add(a, b, p)
+            if got != exp:
+                bad.append(("add", a and a[0] % 1000, b and b[0] % 1000))
+            if a is not None:
+                if un(m.double(mk(a))) != aff_add(a, a, p):
+                    bad.append(("double", a[0] % 1000))
+                if un(m.neg(mk(a))) != (a[0], -a[1] % p):
+                    bad.append(("neg",))
+                bb = (a[1] ** 2 - a[0] ** 3) % p
+                if not m.is_on_curve(mk(a), FQ(bb)) or m.is_on_curve(mk(a), FQ(bb + 1)):
+                    bad.append(("is_on_curve",))
+        except Exception as e:
+            bad.append((repr(e)[:60],))
+    return (len(bad) > 0), "c07_ref %s: %d mismatches %s" % (args["curve"], len(bad), str(bad[:3])[:200])
+
+
+def replay_c07_multiply(args):
+    m = importlib.import_module(args["module"])
+    p = m.field_modulus
+    opt = "optimized" in args["module"]
+    bad = []
+    g = (int(m.G1[0]), int(m.G1[1]))
+    ns = [0, 1, 2, 3, 4, 5, 7, 8, 15, 16, 17, 31, 255, 256, 2 ** 64 + 1, m.curve_order - 1, m.curve_order, m.curve_order + 1, 2 * p - m.curve_order, 2 ** 300 + 12345]
+    if args.get("n"):
+        ns.insert(0, int(args["n"]))
+    for n in ns:
+        exp = aff_mul(g, n % m.curve_order if n >= m.curve_order else n, p)
+        try:
+            r = m.multiply(m.G1, n)
+            got = _proj_to_aff_int(r, p) if opt else (None if r is None else (int(r[0]), int(r[1])))
+        except Exception as e:
+            got = repr(e)[:40]
+        if got != exp:
+            bad.append((n if n < 10 ** 6 else "big(%d bits)" % n.bit_length(),))
+    return (len(bad) > 0), "c07_multiply %s: %d mismatches %s" % (args["module"], len(bad), str(bad[:4])[:200])
+
+
+def replay_c07_twist(args):
+    """twist against an independent computation: it must map E'(F_p^2) points to points of y^2 = x^3 + b over F_p^12, be additive and injective."""
+    curve, impl = args["curve"], args["impl"]
+    m = importlib.import_module((_REF_MODS if impl == "ref" else _CURVE_MODS)[curve])
+    bad = []
+    P = m.G2
+    Q = m.multiply(m.G2, 5)
+    S = m.add(P, Q)
+    tw = m.twist
+    try:
+        for X in (P, Q, S, m.double(P), m.neg(Q)):
+            if not m.is_on_curve(tw(X), m.b12):
+                bad.append(("twist not on curve",))
+        if not m.eq(m.add(tw(P), tw(Q)), tw(S)):
+            bad.append(("not additive",))
+        if not m.eq(m.double(tw(P)), tw(m.double(P))):
+            bad.append(("double",))
+        if not m.eq(m.neg(tw(P)), tw(m.neg(P))):
+            bad.append(("neg",))
+        if m.eq(tw(P), tw(Q)):
+            bad.append(("not injective",))
+        # coefficient structure: psi(c0 + c1 i) = (c0 - k c1) + c1 w^6
+        k = 9 if curve == "bn128" else 1
+        p = m.field_modulus
+        x = P[0]
+        c0, c1 = int(x.coeffs[0]), int(x.coeffs[1])
+        w = m.w
+        if impl == "ref":
+            tx = tw((P[0], P[1]))[0]
+            base = tx * (w ** 2) if curve == "bls12_381" else tx
+            shift = 0 if curve == "bls12_381" else 2
+        else:
+            tx = tw(P)[0]
+            base = tx
+            shift = 1 if curve == "bls12_381" else 2
+        exp = [0] * 12
+        exp[shift] = (c0 - k * c1) % p
+        exp[shift + 6] = c1 % p
+        if [int(c) for c in base.coeffs] != exp:
+            bad.append(("coefficients",))
+    except Exception as e:
+        bad.append((repr(e)[:60],))
+    return (len(bad) > 0), "c07_twist %s %s: %s" % (impl, curve, bad[:3])
+
+
+def replay_c07_consts(args):
+    bad = []
+    for name in ("py_ecc.bn128", "py_ecc.bls12_381", "py_ecc.optimized_bn128", "py_ecc.optimized_bls12_381"):
+        m = importlib.import_module(name)
+        try:
+            if not (m.is_inf(m.multiply(m.G1, m.curve_order)) and m.is_inf(m.multiply(m.G2, m.curve_order)) and m.is_on_curve(m.G12, m.b12)):
+                bad.append((name, "generator order / curve"))
+        except Exception as e:
+            bad.append((name, repr(e)[:50]))
+    from py_ecc.optimized_bls12_381 import G1, field_modulus, curve_order
+    if field_modulus != 0x1a0111ea397fe69a4b1ba7b6434bacd764774b84f38512bf6730d2a0f6b0f6241eabfffeb153ffffb9feffffffffaaab or int(G1[0]) != 0x17f1d3a73197d7942695638c4fa9ac0fc3688c4f9774b905a14e3a3f171bac586c55e83ff97a1aeffb3af00adb22c6bb:
+        bad.append(("bls12-381 constants",))
+    return (len(bad) > 0), "c07_consts: %s" % bad[:3]
